@@ -52,7 +52,7 @@ def floors(tier):
     return {'evaluations': 15000, 'distinct_nontrivial': 4000, 'callbacks_checked': 200000,
             'none_placeholders_seen': 2000, 'histkeys:callback': 9, 'trees_with_none_body_or_args': 50,
             'empty_nodelist_arguments_seen': 500, 'nonempty_nodelist_arguments_seen': 500,
-            'catch_all_visitor_runs': 5000, 'argument_lists_counted': 20000, 'visitor_runs_with_none_results': 3000, 'revisited_after_legacy_reads': 3000, 'recovered_trees_of_truncated_documents': 1000, 'present_optional_delimited_arguments': 1000, 'legacy_attribute_reads': 3000, 'histkeys:catch_all_for': 9, 'hist:catch_all_for:visit_specials_node': 200}
+            'catch_all_visitor_runs': 5000, 'argument_lists_counted': 20000, 'visitor_runs_with_none_results': 3000, 'revisited_after_legacy_reads': 3000, 'recovered_trees_of_truncated_documents': 1000, 'present_optional_delimited_arguments': 1000, 'recomposer_runs': 5000, 'legacy_attribute_reads': 3000, 'histkeys:catch_all_for': 9, 'hist:catch_all_for:visit_specials_node': 200}
 
 
 def setup(rec):
@@ -291,6 +291,54 @@ def check_tree(root, rec, mask=None, none_for=()):
     return None, (len(got), len(kinds))
 
 
+_REC_RECOMPOSER = []
+
+
+def recording_recomposer():
+    """The library's own visitor client (LatexNodesLatexRecomposer, which replaces the standard processing of every node kind
+    by its recompose_* hooks) with every node_standard_process_* call logged on return: (kind, object), children first."""
+    if not _REC_RECOMPOSER:
+        from pylatexenc.latexnodes import LatexNodesLatexRecomposer
+
+        def wrap(name):
+            def f(self, obj, *a, **kw):
+                r = getattr(LatexNodesLatexRecomposer, name)(self, obj, *a, **kw)
+                self.log.append((name, obj))
+                return r
+            return f
+        d = {n: wrap(n) for n in dir(LatexNodesLatexRecomposer) if n.startswith('node_standard_process_')}
+        d['__init__'] = lambda self: (LatexNodesLatexRecomposer.__init__(self), setattr(self, 'log', []))[0]
+        _REC_RECOMPOSER.append(type('RecordingRecomposer', (LatexNodesLatexRecomposer,), d))
+    return _REC_RECOMPOSER[0]()
+
+
+def check_recomposer(root, rec):
+    v = recording_recomposer()
+    try:
+        out = v.start(root)
+    except Exception as e:
+        import traceback
+        return 'LatexNodesLatexRecomposer raised %s: %s [%s]' % (type(e).__name__, e, traceback.format_exc().splitlines()[-3].strip())
+    r = Ref(rec, ())
+    r.visit(root)
+    want = [o for (_, o, _) in r.order if o is not None]
+    got = [o for (_, o) in v.log if o is not None]
+    rec.monitor('recomposer_runs')
+    rec.monitor('recomposer_objects_checked', len(got))
+    for i in range(max(len(got), len(want))):
+        if i >= len(got):
+            return 'LatexNodesLatexRecomposer never processed object %d of the tree (%s); %d processed, %d reachable' % (
+                i, _d(want[i]), len(got), len(want))
+        if i >= len(want):
+            return 'LatexNodesLatexRecomposer processed an extra object %s' % _d(got[i])
+        if got[i] is not want[i]:
+            return 'LatexNodesLatexRecomposer processed %s as object %d, the post-order traversal expects %s' % (
+                _d(got[i]), i, _d(want[i]))
+    if not isinstance(out, str):
+        return 'LatexNodesLatexRecomposer returned %s, not a string' % type(out).__name__
+    return None
+
+
 def legacy_reads(nl, rec, how):
     """What pylatexenc-1/2 style code does with a parsed tree between two traversals: reading the legacy views of the
     arguments (nodeoptarg, nodeargs, nodeargd) of every macro/environment node, or converting the tree to text."""
@@ -339,6 +387,8 @@ def check_case(case, rec):
     err, info = check_tree(nl, rec)
     if not err and info and info[0] >= 5 and info[1] >= 3:
         rec.nontrivial(s)
+    if not err and case.get('recomposer', True) and len(s) % 2 == 0:
+        err = check_recomposer(nl, rec)
     if not err and case.get('legacy'):
         # the same tree visited again after pylatexenc-2 style code has looked at it: same callbacks on the same objects
         first = check_tree.last_log
